@@ -25,6 +25,7 @@ type laneCfg struct {
 	Chunk     int    // runs per worker process
 	Offset    uint64 // run-index offset (lanes that must explore different runs)
 	Share     int    // share of the thorough budget (relative)
+	Isolate   bool   // every run in a process of its own (what a library initialises once per process is initialised in every run)
 }
 
 var lanes = map[string][]laneCfg{
@@ -37,7 +38,8 @@ var lanes = map[string][]laneCfg{
 		{Name: "stub-norace", Worker: "stub", QuickRuns: 256000, Chunk: 2000, Offset: 1 << 32, Share: 1},
 	},
 	"C19": {
-		{Name: "race", Race: true, Worker: "stub", QuickRuns: 32000, Chunk: 500, Share: 1},
+		{Name: "race", Race: true, Worker: "stub", QuickRuns: 32000, Chunk: 500, Share: 8},
+		{Name: "race-fresh-process", Race: true, Worker: "stub", QuickRuns: 1280, Chunk: 40, Offset: 1 << 33, Share: 1, Isolate: true},
 	},
 }
 
